@@ -48,11 +48,16 @@ def sites(files):
             if st.count('"""') % 2 == 1:
                 indoc = not indoc
                 continue
+            if st.startswith(('"', "'", 'f"', "r'", 'r"')) or st.endswith(('",', '"')):
+                continue                                  # a line of a string literal
             if indoc or not st or st.startswith(("#", "assert", "print(", "import", "from ", "def ", "class ", "@", ">>>", "...")):
                 continue
             code = text.split("#")[0]
             for k, (pat, rep, kind) in enumerate(RULES):
                 for m in re.finditer(pat, code):
+                    before = code[:m.start()]
+                    if before.count('"') % 2 or before.count("'") % 2:
+                        continue                          # inside a string literal
                     res.append((f, no, k, m.start(), kind))
     return res
 
